@@ -106,6 +106,8 @@ def _dtype_cast(I, e, out, x, dt, computed=False):
         I.emit("dtype_cast", e, value=x, dtype_src=srcs, computed=True)
         return
     src = (f.data | f.shp) - {o for o in (x.flat().data | x.flat().shp)}
+    if dt.tag("promotes") and x.term is not None and mk_term("dtype", x.term) in dt.tag("promotes"):
+        return          # np.result_type(x.dtype, …): a promotion that includes x's own type never narrows x
     if src and not dt.tag("exttype") and not (dt.known):
         out.tags["dtype_from"] = frozenset(src)
         out.shp = out.shp | f.data | f.shp
@@ -357,6 +359,14 @@ def m_result_type(I, e, args, kws):
     out.shp |= out.data
     out.data = E
     out.tags["dtype_of"] = True
+    out.tags["promotes"] = [a_.term for a_ in args if a_.term is not None]
+    fl = {"float", "float64", "float32", "float16", "float_", "double", "longdouble", "complex128", "complex64", "complex"}
+    if any((isinstance(a_, ast.Attribute) and a_.attr in fl) or (isinstance(a_, ast.Name) and a_.id in fl)
+           or (isinstance(a_, ast.Constant) and isinstance(a_.value, (float, str)) and str(a_.value).lstrip("<=>|").startswith(("f", "d", "float", "c")))
+           for a_ in e.args):
+        # promoted with a floating type: the result is floating whatever the inputs are — not an inherited (possibly integer) dtype
+        out.tags["dtype_of"] = False
+        out.const = "floating-dtype"
     return out
 
 
@@ -375,6 +385,24 @@ def m_full(I, e, args, kws):
             out.tags["extremum"] = fill.tag("extremum")
         if fill.tag("xsample"):
             out.tags["xsample"] = True
+        dt = kws.get("dtype") or (args[2] if len(args) > 2 else None)
+        if dt is None and not fill.known and not fill.tag("floating") and fill.flat().data:
+            # np.full(shape, x) takes the element type of x: an integer x makes an integer buffer
+            out.tags["dtype_from"] = frozenset(fill.flat().data)
+    return out
+
+
+@model("numpy.indices")
+def m_indices(I, e, args, kws):
+    """np.indices(dims): the coordinate grids of a box.  np.indices((2,) * n) enumerates the corners of the n-cube."""
+    out = mk(args + list(kws.values()), fresh="FRESH", unit=ONE, sign="NONNEG", tags={"kind": "ndarray", "notstr": True})
+    out.shp = out.shp | out.data
+    out.data = E
+    a0 = e.args[0] if e.args else None
+    if isinstance(a0, ast.BinOp) and isinstance(a0.op, ast.Mult):
+        tup, cnt = (a0.left, a0.right) if isinstance(a0.left, ast.Tuple) else (a0.right, a0.left)
+        if isinstance(tup, ast.Tuple) and len(tup.elts) == 1 and isinstance(tup.elts[0], ast.Constant) and tup.elts[0].value == 2:
+            out.tags["indices_grid"] = I.ev(cnt)
     return out
 
 
@@ -470,6 +498,14 @@ def m_reshape(I, e, args, kws):
             dims = [None if d == "infer" else d for d in dims]
         news = Shape(dims)
     out.shape = news
+    ig = x.tag("indices_grid")
+    if ig is not None:
+        out.tags.pop("indices_grid", None)
+        # np.indices((2,)*n).reshape(n, 2**n): row k holds the k-th binary digit of the column number — all 2^n columns
+        if news is not None and len(news.axes) == 2 and as_dim(ig) is not None and news.axes[0] == as_dim(ig) and layout == "C" \
+                and shp.items is not None and (shp.items[1].tag("pow2_of") is not None and shp.items[1].tag("pow2_of").term == ig.term
+                                               or const_int(shp.items[1]) == -1):
+            out.tags["indices_flat"] = ig
     out.tags["reshape_layout"] = layout
     out.tags["reshape_from"] = x.shape
     I.emit("np_reshape", e, src=x, shape=news, layout=layout)
@@ -503,6 +539,20 @@ def m_transpose(I, e, args, kws):
     x = args[0]
     out = x.copy(term=mk_term("T", x.term))
     out.shape = transpose_shape(x.shape) if len(args) == 1 and not kws else None
+    return out
+
+
+@model("numpy.diag", "numpy.diagonal", "numpy.ndarray.diagonal")
+def m_diag(I, e, args, kws):
+    """np.diag / np.diagonal: the diagonal of a matrix (or the diagonal matrix of a vector) — same unit, fresh array"""
+    x = args[0]
+    out = mk([x], fresh="FRESH", unit=x.unit, sign=None, tags={"kind": "ndarray", "notstr": True, "diag_of": x})
+    out.frame = x.frame
+    sh = x.shape
+    if sh is not None and len(sh.axes) == 2 and not sh.ell:
+        out.shape = Shape((sh.axes[-1],))
+    elif sh is not None and len(sh.axes) == 1 and not sh.ell and "diagonal" not in M.norm_text(e.func):
+        out.shape = Shape((sh.axes[0], sh.axes[0]))
     return out
 
 
@@ -1312,6 +1362,8 @@ def rng_method(I, e, base, attr, args, kws):
             out.tags["kind"] = "ndarray"
         if attr in ("random", "dirichlet", "uniform"):
             out.sign = "NONNEG"
+        if attr in ("random", "dirichlet", "uniform", "standard_normal", "normal", "beta", "gamma", "exponential"):
+            out.tags["floating"] = True
         if attr == "dirichlet":
             out.tags["simplex_rows"] = True
     elif k == "qmc":
@@ -1408,6 +1460,11 @@ def object_method(I, e, base, attr, args, kws):
         pts = base.tag("points")
         q = args[0]
         I.emit("membership", e, cloud=pts, query=q, how="find_simplex")
+        tol = kws.get("tol") if "tol" in kws else (args[2] if len(args) > 2 else None)
+        if tol is not None and not (tol.known and tol.const is None):
+            # an explicit tolerance of the inside-simplex test (barycentric coordinates ≥ −tol; SciPy's default is 100·eps): points
+            # outside the hull by up to tol of a simplex count as inside
+            I.emit("membership_tolerance", e, query=q, cloud=pts, tol=tol)
         out.unit = ONE
         if q.shape is not None and q.shape.axes:
             out.shape = Shape(q.shape.axes[:-1], q.shape.ell)
